@@ -3,7 +3,7 @@
 import json, os, re, sys
 name, prop = sys.argv[1:3]
 d = "/verif/seeded/" + name
-log = open(os.path.join(d, "confirm.log")).read() if os.path.exists(os.path.join(d, "confirm.log")) else ""
+log = open(os.path.join(d, "confirm.log"), errors="replace").read() if os.path.exists(os.path.join(d, "confirm.log")) else ""
 readme = open(os.path.join(d, "README.md")).read() if os.path.exists(os.path.join(d, "README.md")) else ""
 checks = {}
 cur = None
